@@ -230,6 +230,9 @@ func NewAuthorizationCodeHandler(config *AuthorizationCodeHandlerConfig) (*Autho
 	if config.Client == nil {
 		config.Client = http.DefaultClient
 	}
+	// The metadata, registration and token URLs are checked to be HTTPS or
+	// loopback; a redirect must not take the same request somewhere else.
+	config.Client = util.HTTPSOrLoopbackRedirects(config.Client)
 	return &AuthorizationCodeHandler{
 		config:        config,
 		tokenSource:   config.InitialTokenSource,
